@@ -218,3 +218,57 @@ Fixpoint ss_drive_v (fuel : nat) (s : sbytes) (w : writer) (bufs : list (list N)
 
 Definition ss_drive_v_all (script : list resp) (bufs : list (list N)) : option (sbytes * writer * sres) :=
   ss_drive_v (S (length script + length (concat bufs) + length bufs)) sb_new (writer_of script) bufs.
+
+(* ---- vocabulary of the function translator (tools/gen_fn_stream.py, Generated/StreamFn.v) ----
+   Small adapters only: no existing definition changes meaning. *)
+
+(* StripBytesIter as a cursor (remaining bytes, their offset in the slice handed to strip_next);
+   the `&mut StripBytes` the iterator holds is threaded through every `next` *)
+Definition sbi_new (buf : list N) : list N * N := (buf, 0).
+Definition sbi_next (it : list N * N) (s : sbytes) : option (option piece * (list N * N) * sbytes) :=
+  '(p, bs', off', st', u') <- next_bytes (fst it) (snd it) (sb_state s) (sb_u s) ;;
+  Some (p, (bs', off'), mkSB st' u').
+
+(* state.strip_next(bs).last(): drain the iterator; the value is the last piece *)
+Definition sb_last (s : sbytes) (bs : list N) : option (sbytes * option piece) :=
+  '(ps, _, st, u) <- strip_next_bytes bs (sb_state s) (sb_u s) ;;
+  Some (mkSB st u, last (map Some ps) None).
+
+(* a `&[u8]` that is a sub-slice of the buffer: a piece (offset, bytes) *)
+Definition piece_len (p : piece) : N := N.of_nat (length (p_bytes p)).
+(* &p[a..]: panics when a > len *)
+Definition piece_from (p : piece) (a : N) : option piece :=
+  if a <=? piece_len p then Some (mkPiece (p_off p + a) (skipn (N.to_nat a) (p_bytes p))) else None.
+(* address model of offset_to: addresses are counted from the start of the buffer the pieces
+   were cut from, so the buffer itself sits at 0 and a piece at its offset *)
+Definition buf_addr (total : list N) : N := 0.
+Definition piece_addr (p : piece) : N := p_off p.
+
+(* calls on the inner writer (`raw: &mut dyn io::Write`) with a piece as the argument *)
+Definition ss_raw_write (w : writer) (p : piece) : writer * (N + ekind) := w_write w (p_bytes p).
+Definition ss_raw_write_all (w : writer) (p : piece) : writer * (unit + ekind) := w_write_all w (p_bytes p).
+Definition ss_raw_flush (w : writer) : writer * (unit + ekind) := (w_flush w, inl tt).
+
+(* crates/anstream/src/fmt.rs, Adapter::new(f).write_fmt(args) over core::fmt::write: write_str
+   hands every fragment to the closure [f] (which threads its captured state [S]); the first
+   error is saved and returned, the remaining fragments are not written *)
+Fixpoint fmt_adapter_write_fmt {S : Type} (f : list N -> S -> option (S * (unit + ekind))) (s : S)
+         (frags : list (list N)) : option (S * (unit + ekind)) :=
+  match frags with
+  | [] => Some (s, inl tt)
+  | fr :: rest =>
+      '(s1, r) <- f fr s ;;
+      match r with
+      | inr e => Some (s1, inr e)
+      | inl _ => fmt_adapter_write_fmt f s1 rest
+      end
+  end.
+
+(* the struct StripStream { raw, state } *)
+Record sstream : Set := mkSS { ss_raw : writer; ss_state : sbytes }.
+Definition set_ss_raw (x : sstream) (w : writer) : sstream := mkSS w (ss_state x).
+Definition set_ss_state (x : sstream) (s : sbytes) : sstream := mkSS (ss_raw x) s.
+
+(* io::Result<usize> / io::Result<()> of the translated functions as the hand model's [sres] *)
+Definition sres_of_n (r : N + ekind) : sres := match r with inl n => ROkN n | inr e => RErr e end.
+Definition sres_of_unit (r : unit + ekind) : sres := match r with inl _ => ROk | inr e => RErr e end.
